@@ -40,11 +40,12 @@ Definition ident_of_lexed (s : bytes) : ident :=
   | _ => {| i_id := s; i_ic := true |}
   end.
 
-(** IdentifierFromString on an arbitrary string: slicing id[1:l-1] panics for the one-byte string consisting of a double quote *)
+(** IdentifierFromString on an arbitrary string: quoted only if it has at least two bytes and
+    starts with a double quote (id[1:l-1] is then in range); [res] is kept for the callers *)
 Definition ident_of_string (s : bytes) : res ident :=
   match s with
-  | [34] => Panic (str "slice bounds out of range [1:0]")
-  | _ => Ok (ident_of_lexed s)
+  | c :: _ :: _ => if c =? 34 then Ok (ident_of_lexed s) else Ok {| i_id := s; i_ic := true |}
+  | _ => Ok {| i_id := s; i_ic := true |}
   end.
 
 (** strings.EqualFold against an ASCII constant: ASCII letters fold by case; the only other
@@ -270,10 +271,11 @@ Definition parse_function_term (n : nat) (pt : PT) (s : lstate) : TRes :=
            tFunc, 0, s3)
     end.
 
-(** parseTerm.  [fuel] bounds the nesting depth; every inner loop is bounded by [n]. *)
+(** parseTerm.  [fuel] is the nesting depth still allowed (lexer.enter: maxNestingDepth minus the
+    depth reached; exhausting it is the "nested too deeply" error); every inner loop is bounded by [n]. *)
 Fixpoint parse_term (fuel : nat) (n : nat) (s : lstate) (t : N) : TRes :=
   match fuel with
-  | O => (false, tInvalid, 2, s)
+  | O => (false, tInvalid, 1, s)
   | S f =>
       let pt := parse_term f n in
       if t =? tkInteger then (true, tInteger, 0, s)
@@ -324,10 +326,13 @@ Definition parse_identifiers_relation (n : nat) (pt : PT) (s : lstate) : RRes :=
     else (false, 1, s2)
   else (false, 1, s1).
 
-Fixpoint parse_relation (fuel : nat) (n : nat) (pt : PT) (s : lstate) (t : N) : RRes :=
+(** parseRelation shares the nesting counter with parseTerm: a term inside a relation entered at
+    depth d may nest maxNestingDepth - d deeper, which is what is left of [fuel] here. *)
+Fixpoint parse_relation (fuel : nat) (n : nat) (s : lstate) (t : N) : RRes :=
   match fuel with
-  | O => (false, 2, s)
+  | O => (false, 1, s)
   | S f =>
+      let pt := parse_term f n in
       if t =? tkIdentifier then
         let '(t1, s1) := next s in
         if t1 =? tkIdentifier then
@@ -382,7 +387,7 @@ Fixpoint parse_relation (fuel : nat) (n : nat) (pt : PT) (s : lstate) (t : N) : 
         else
           let sr := rewind s2 in
           let '(t1, s3) := next sr in
-          let '(idem, e, s4) := parse_relation f n pt s3 t1 in
+          let '(idem, e, s4) := parse_relation f n s3 t1 in
           if negb idem then (idem, e, s4)
           else let '(t2, s5) := next s4 in if negb (t2 =? tkRparen) then (false, 1, s5) else (true, 0, s5)
       else (false, 1, s)
@@ -395,7 +400,7 @@ Fixpoint parse_where_loop (n : nat) (fuel : nat) (pt : PT) (s : lstate) (t : N) 
     match n with
     | O => (false, tkInvalid, 2, s)
     | S n' =>
-        let '(idem, e, s1) := parse_relation fuel n pt s t in
+        let '(idem, e, s1) := parse_relation fuel n s t in
         if negb idem then (idem, tkInvalid, e, s1)
         else
           let '(t1, s2) := next s1 in
@@ -658,10 +663,10 @@ Definition batch_stmt (n fuel : nat) (pt : PT) (s : lstate) : bool * N :=
             else let '(t5, _) := next s5 in if negb (t5 =? tkBatch) then (false, 1) else (true, 0)
         end.
 
-(** ** IsQueryIdempotent: (idempotent, error kind: 0 none, 1 error, 2 out of fuel) *)
+(** ** IsQueryIdempotent: (idempotent, error kind: 0 none, 1 error, 2 a loop bound of the model ran out) *)
 Definition is_idempotent_tokens (ts : list tok) : bool * N :=
   let n := S (length ts) in
-  let fuel := S (length ts) in
+  let fuel := N.to_nat max_nesting_depth in
   let pt := parse_term fuel n in
   let s0 := init_lstate ts in
   let '(t, s) := next s0 in
